@@ -486,6 +486,8 @@ def r12_m(run, fx):
 
 
 def check(run, fx, tier, floors=True):
+    import ignored
+    ignored.run_for(run, fx, 'C12', floors)
     if floors or fx.body("<tables::variable_fonts::mvar::MvarTable<'_> as binary::read::ReadBinary>::read") is not None:
         r12_s(run, fx)
     r12_p(run, fx)
